@@ -30,18 +30,34 @@ pub fn decode_set(bytes: &[u8]) -> OrSWotSet<NUM_SOURCES> {
 }
 
 async fn race(k: u64, seed: u64, maxdelay: u64) -> String {
+    use datacake_eventual_consistency::verif::{ConsistencyService, GetState, PutPayload, ReplicationService};
+    use datacake_rpc::{Handler, Request};
+
     let clock = Clock::new(1);
     let store = Arc::new(MemStore::default());
     let group = KeyspaceGroup::new(store.clone(), clock.clone()).await;
+    // the three kinds of first users the property names: a client write (the group directly), incoming replication (the
+    // ConsistencyService handler of a peer's put), repair (the ReplicationService handler of a peer's GetState)
+    let consistency = Arc::new(ConsistencyService::new(group.clone(), datacake_node::RpcNetwork::default()));
+    let replication = Arc::new(ReplicationService::new(group.clone()));
     let mut handles = Vec::new();
     let mut s = seed;
     for i in 0..k {
         let (d1, d2) = (lcg(&mut s) % (maxdelay + 1), lcg(&mut s) % (maxdelay + 1));
+        let kind = lcg(&mut s) % 3;
         let group = group.clone();
         let clock = clock.clone();
+        let consistency = consistency.clone();
         handles.push(tokio::spawn(async move {
             for _ in 0..d1 {
                 tokio::task::yield_now().await;
+            }
+            if kind == 1 {
+                // incoming replication
+                let ts = clock.get_time().await;
+                let document = Document::new(i, ts, vec![i as u8]);
+                let req = Request::using_owned(PutPayload { keyspace: "race".to_string(), ctx: None, document, timestamp: ts }).await;
+                return consistency.on_message(req).await.is_ok();
             }
             let ks = group.get_or_create_keyspace("race").await;
             for _ in 0..d2 {
@@ -53,6 +69,25 @@ async fn race(k: u64, seed: u64, maxdelay: u64) -> String {
                 .await;
             res.is_ok()
         }));
+    }
+    // peers asking for the keyspace state while it is being used for the first time (they write nothing)
+    let extras = lcg(&mut s) % 3;
+    let mut extra_handles = Vec::new();
+    for _ in 0..extras {
+        let d1 = lcg(&mut s) % (maxdelay + 1);
+        let replication = replication.clone();
+        let clock = clock.clone();
+        extra_handles.push(tokio::spawn(async move {
+            for _ in 0..d1 {
+                tokio::task::yield_now().await;
+            }
+            let ts = clock.get_time().await;
+            let req = Request::using_owned(GetState { keyspace: "race".to_string(), timestamp: ts }).await;
+            let _ = replication.on_message(req).await;
+        }));
+    }
+    for h in extra_handles {
+        let _ = h.await;
     }
     let mut acked = Vec::new();
     for (i, h) in handles.into_iter().enumerate() {
